@@ -5,6 +5,8 @@ import inspect
 import re
 import sys
 
+import math
+
 import numpy as np
 
 from common import Cvec, Cx, R, Rmat, Rvec, cfl, fl, flmat, max_rel_err
@@ -643,6 +645,79 @@ def _gen_fd_case0(ctx, from_data):
     return dict(l=l, r=r, p=p, ordmax=ordmax, H=H, g=g)
 
 
+def class_consistency(ctx, it):
+    """(4) through the class: the frequency variance SSIcov(calc_unc=True) stores for a retained pole is the variance the
+    propagation routines deliver for that pole (verified against finite differences by streams 1-3) - on ordinary noisy
+    records, where at every order some poles are rejected by the hard criteria and others kept."""
+    from pyoma2.algorithms import SSIcov
+    from pyoma2.setup import SingleSetup
+
+    rng = ctx.rng
+    g = ctx.nprng()
+    ssi = _ssi()
+    l = rng.randint(2, 4)
+    r = rng.randint(1, l)
+    ref = sorted(rng.sample(range(l), r))
+    if rng.random() < 0.3:
+        rng.shuffle(ref)
+    p = rng.randint(3, 6)
+    ordmax = rng.randint(4, min(10, p * l, (p + 1) * r)) if min(p * l, (p + 1) * r) >= 4 else None
+    if ordmax is None:
+        ctx.skipped += 1
+        return
+    Y = gen_data(g, l, rng.randint(2, 5), rng.randint(700, 1600))
+    N = Y.shape[1] - 2 * p - 1
+    nb = rng.randint(3, 12)
+    if N % nb == 0:
+        nb += 1
+    fs = 1.0 / DT
+    xi_max = rng.choice([0.05, 0.1, 0.2])
+    hc = dict(conj=rng.random() < 0.5, xi_max=xi_max, mpc_lim=rng.choice([0.0, 0.5]), mpd_lim=rng.choice([math.pi / 2, 0.6]), cov_max=1e300)
+    alg = SSIcov(name="a", br=p, ordmax=ordmax, method="cov_mm", ref_ind=list(ref), calc_unc=True, nb=nb, hc=hc)
+    ss = SingleSetup(Y.T.copy(), fs=fs)
+    ss.add_algorithms(alg)
+    inp = {"class": "SSIcov", "l": l, "ref": ref, "br": p, "ordmax": ordmax, "nb": nb, "hc": {k: (v if not isinstance(v, float) or math.isfinite(v) else str(v)) for k, v in hc.items()},
+           "data_seed": f"seed{ctx.seed}#class{it}"}
+    try:
+        ss.run_by_name("a")
+        Yc = alg.data.T  # the very array (values AND memory layout) the class hands on: BLAS sums depend on the layout, and the
+        # variances of ill-conditioned noise poles amplify a last-bit difference of H to 1e-6
+        H, T = ssi.build_hank(Yc, Yc[ref, :], p, "cov_mm", calc_unc=True, nb=nb)
+        Obs, A, C, Q1, Q2, Q3, Q4 = ssi.SSI_fast(H, p, ordmax, step=1, calc_unc=True, T=T, nb=nb)
+        Fn, Xi, Phi, Lam, Fn_cov, Xi_cov, _ = ssi.SSI_poles(Obs, A, C, ordmax, alg.dt, step=1, calc_unc=True, Q1=Q1, Q2=Q2, Q3=Q3, Q4=Q4)
+    except np.linalg.LinAlgError:
+        ctx.skipped += 1
+        return
+    res = alg.result
+    Fc, Vc = np.asarray(res.Fn_poles, float), np.asarray(res.Fn_poles_cov, float)
+    ctx.oracle_cases += 1
+    ctx.count("class_consistency_runs")
+    kept = ~np.isnan(Fc)
+    rejected_before_kept = 0
+    for o in range(Fc.shape[1]):
+        col = kept[:, o]
+        if col.any():
+            first_kept = int(np.argmax(col))
+            last_kept = int(len(col) - 1 - np.argmax(col[::-1]))
+            rejected_before_kept += int(np.sum(~col[:last_kept] & ~np.isnan(np.asarray(Fn, float)[:last_kept, o])))
+    ctx.count("class_consistency_rejected_poles_before_kept_ones", rejected_before_kept)
+    ctx.count("class_consistency_kept_poles", int(kept.sum()))
+    if Fc.shape != np.asarray(Fn).shape:
+        ctx.violation("class-unc-table-shape", f"SSIcov(calc_unc=True): pole table shape {Fc.shape} vs {np.asarray(Fn).shape} from the routines", inp)
+        return
+    same_f = np.allclose(Fc[kept], np.asarray(Fn, float)[kept], rtol=1e-8, atol=0)
+    vf = np.asarray(Fn_cov, float)
+    bad = kept & ~(np.isclose(Vc, vf, rtol=1e-3, atol=0) | (np.isnan(Vc) & np.isnan(vf)))  # 1e-3: a re-ordered sum inside the class may move an ill-conditioned noise pole's variance by 1e-6
+    if not same_f or bad.any():
+        rr, oo = (int(x[0]) for x in np.nonzero(bad)) if bad.any() else (-1, -1)
+        ctx.violation(
+            "class-fncov-differs-from-propagation",
+            f"SSIcov(calc_unc=True): the variance stored for retained pole (row {rr}, order {oo}) is {Vc[rr, oo] if rr >= 0 else None}, the propagation routines "
+            f"give {vf[rr, oo] if rr >= 0 else None} for that pole (frequencies equal: {bool(same_f)})", inp,
+            observed=float(Vc[rr, oo]) if rr >= 0 else None, expected=float(vf[rr, oo]) if rr >= 0 else None,
+        )
+
+
 def oracle(ctx, scale):
     rng = ctx.rng
     # (1) explicit factors: single direction and several columns
@@ -694,6 +769,14 @@ def oracle(ctx, scale):
         dHs = [d / np.sqrt(nb * (nb - 1)) for d in devs]
         ctx.nontrivial.add(("end-to-end", case["l"], case["r"], p, ordmax, nb))
         fd_check(ctx, "data-factor", "fncov-fd-data", H, dHs, T, p, ordmax, {"l": case["l"], "r": case["r"], "nb": nb})
+    _oracle_class(ctx, scale)
+
+
+def _oracle_class(ctx, scale):
+    for it in range(ctx.n(6, 60) * scale):
+        class_consistency(ctx, it)
+        if any(v["sig"].startswith("class-") for v in ctx.violations):
+            return
 
 
 def replay(rec):
